@@ -137,7 +137,8 @@ Definition sch_no_meta_fields (s : schema) : Prop :=
 
 Lemma sch_exec_wf_spec s : sch_exec_wf s = true -> sch_names_unique s /\ sch_no_meta_fields s.
 Proof.
-  unfold sch_exec_wf. intros H. apply andb_true_iff in H. destruct H as [H1 H2]. split.
+  unfold sch_exec_wf. intros H. apply andb_true_iff in H. destruct H as [H _].
+  apply andb_true_iff in H. destruct H as [H1 H2]. split.
   - now apply j_str_nodup_spec.
   - intros t Ht. rewrite forallb_forall in H2. specialize (H2 t Ht).
     destruct t; try exact I; intros f Hf; rewrite forallb_forall in H2; specialize (H2 f Hf); now apply negb_true_iff in H2.
